@@ -5,7 +5,7 @@
 use crate::lru::LruSubj;
 use crate::subj::*;
 use crate::types::*;
-use caches::RawLRU;
+use caches::{Cache, RawLRU};
 use std::cell::RefCell;
 use std::collections::HashMap;
 
@@ -68,6 +68,91 @@ pub fn resident(snap: &Ints) -> Vec<u64> {
                 out.push(snap[2 + 3 * i] as u64);
             }
         }
+    }
+    out
+}
+
+// ---------------------------------------------------------------------------------------------
+// kind 11: SegmentedCache at the level of node addresses (node names are global: a node keeps its name
+// when it is promoted or demoted)
+
+pub struct HSlruSubj {
+    pub inner: crate::comp::SlruSubj,
+    names: RefCell<(HashMap<usize, i128>, i128)>,
+}
+
+impl HSlruSubj {
+    pub fn new(pc: usize, fc: usize, hmode: u64) -> Self {
+        let c = caches::SegmentedCacheBuilder::new(pc, fc)
+            .set_probationary_hasher(VHasher::from_mode(hmode))
+            .set_protected_hasher(VHasher::from_mode(hmode + 1))
+            .finalize::<TKey, TVal>()
+            .unwrap();
+        // two lists: four sentinels are allocated before the first node
+        HSlruSubj { inner: crate::comp::SlruSubj { c }, names: RefCell::new((HashMap::new(), 4)) }
+    }
+}
+
+impl Subject for HSlruSubj {
+    fn apply(&mut self, op: &[i128]) -> Ints {
+        self.inner.apply(op)
+    }
+    fn snapshot(&self) -> Ints {
+        let (prob, prot) = self.inner.c.verif_parts();
+        let (ok_a, _) = audit(prob);
+        let (ok_b, _) = audit(prot);
+        let mut st = self.names.borrow_mut();
+        let (old, mut next) = (std::mem::take(&mut st.0), st.1);
+        let mut now: HashMap<usize, i128> = HashMap::new();
+        let mut out = vec![prob.cap() as i128, prot.cap() as i128];
+        let audits = [prob.verif_audit(), prot.verif_audit()];
+        // names first (probationary, then protected), then the two list snapshots
+        for a in audits.iter() {
+            for (addr, _, _, _) in a.fwd.iter() {
+                let name = match old.get(addr) {
+                    Some(n) => *n,
+                    None => {
+                        let n = next;
+                        next += 1;
+                        n
+                    }
+                };
+                now.insert(*addr, name);
+            }
+        }
+        for a in audits.iter() {
+            out.push(a.fwd.len() as i128);
+            for (addr, _, k, v) in a.fwd.iter() {
+                out.push(k.id as i128);
+                out.push(v.v as i128);
+                out.push(*now.get(addr).unwrap());
+            }
+            let mut idx: Vec<i128> = a.index.iter().map(|(_, n)| *now.get(n).unwrap_or(&-1)).collect();
+            idx.sort_unstable();
+            out.extend(idx);
+        }
+        out.push((ok_a && ok_b) as i128);
+        *st = (now, next);
+        out
+    }
+}
+
+/// resident keys of a kind-11 snapshot
+pub fn slru_resident(snap: &Ints) -> Vec<u64> {
+    let mut out = Vec::new();
+    let mut i = 2;
+    for _ in 0..2 {
+        if i >= snap.len() {
+            break;
+        }
+        let n = snap[i] as usize;
+        i += 1;
+        for j in 0..n {
+            if i + 3 * j < snap.len() {
+                out.push(snap[i + 3 * j] as u64);
+            }
+        }
+        i += 3 * n + n;
     }
     out
 }
